@@ -148,7 +148,7 @@ theorem jitter_rec_src (fuel : Nat) (hf : 65535 ≤ fuel) (ssrc rate r : Nat) (c
 /-- ★ C06 clause "Last-SR and delay-since-last-SR reflect the most recent sender report received for that
 SSRC, and are zero before any", on the code: over any call sequence every report the generated
 `generateReport` returns carries `LSR = (ntp >> 16) mod 2^32` and
-`DLSR = uint32(float64 seconds(now − t)·65536)` for the most recent `processSenderReport(t, ntp)` call, and
+`DLSR = uint32(float64 seconds(max(now − t, 0))·65536)` for the most recent `processSenderReport(t, ntp)` call, and
 `(0, 0)` before any (`Spec.lsrReports`). -/
 theorem lsr_dlsr_src (fuel : Nat) (hf : 65535 ≤ fuel) (ssrc rate r : Nat) (cs : List Call)
     (hok : ∀ c ∈ cs, c.ok) :
